@@ -151,7 +151,12 @@ func scenarios(tier string) []engine.Scenario {
 		}
 		scs = append(scs, inUniverse(u.n, u.ci, us)...)
 	}
+	// ---- lazy accumulation over many digits (N=16, standard ring): exact linear-form oracle + recombination ----
 	setUniverse(16, false)
+	for _, ch := range longChains() {
+		scs = append(scs, gadgetAccumulationScenario(ch))
+		scs = append(scs, gadgetRecombineScenario(ch, len(ch.Q), len(ch.P)))
+	}
 	return scs
 }
 
@@ -220,7 +225,8 @@ func main() {
 		Expect: func(tier string) []string {
 			setUniverse(16, false)
 			e := []string{"universe=N=64,ci=false", "universe=N=16,ci=true", "universe=N=32,ci=true", "be-sequence-receiver=ShallowCopy", "be-sequence-receiver=NewBasisExtender",
-				"evaluator-sequence-receiver=ShallowCopy", "evaluator-sequence-receiver=NewEvaluator", "div-class=ratios", "be-e=zero", "decomposer-tiny=exhaustive", "decomposer-branch=reconstruct", "decomposer-branch=has-copy-only-digit",
+				"evaluator-sequence-receiver=ShallowCopy", "evaluator-sequence-receiver=NewEvaluator", "div-class=ratios", "accumulation-digits=>=33", "accumulation-digits=17..32", "accumulation-digits=9..16", "accumulation-digits=5..8", "accumulation-digits=1..4",
+				"accumulation-path=multipleP", "accumulation-path=pow2", "accumulation-path=singleP-rns", "be-e=zero", "decomposer-tiny=exhaustive", "decomposer-branch=reconstruct", "decomposer-branch=has-copy-only-digit",
 				"decomposer-tail=partial-last-digit", "gadget-class=rns", "gadget-class=base2", "gadget-path=multipleP", "gadget-path=singleP-or-pow2",
 				"pow2-cover=covers", "evaluator-decompose=Evaluator.DecomposeNTT", "evaluator-decompose=Evaluator.DecomposeSingleNTT",
 				"extend-fn=0", "extend-fn=1", "extend-fn=2", "evaluator-moddown=noP", "evaluator-moddown=in=true/out=true", "evaluator-moddown=in=true/out=false",
